@@ -129,7 +129,7 @@ Cands ==
   \cup UNION {{Op(nm, s, t, NoX, 0, w) : nm \in {"ctor_view", "decay", "ctor_range"}, s \in DeadS, w \in Wrappers(arr[t])} : t \in LiveS}
   \cup {Op(nm, s, t, NoX, 0, NoW) : nm \in {"ctor_copy", "ctor_move", "ctor_ref", "ctor_rref", "ctor_other", "ctor_other_x", "ctor_il"}, s \in DeadS, t \in LiveS}
   \* assignments to a live slot
-  \cup UNION {{Op(nm, s, t, NoX, 0, NoW) : nm \in {"assign_copy", "assign_move", "assign_other", "assign_il", "swap", "assign_range"}, t \in LiveS \ {s}} : s \in LiveS}
+  \cup UNION {{Op(nm, s, t, NoX, 0, NoW) : nm \in {"assign_copy", "assign_move", "assign_other", "assign_il", "swap", "assign_range", "assign_range_ptr"}, t \in LiveS \ {s}} : s \in LiveS}
   \cup UNION {UNION {{Op(nm, s, t, NoX, 0, w) : nm \in {"assign_view", "assign_rview"}, w \in Wrappers(arr[t])} : t \in LiveS \ {s}} : s \in LiveS}
   \* assignment between array_ref's over the storage of two arrays of equal extents: deep, no allocation, storage kept
   \cup UNION {{Op(nm, s, t, NoX, 0, NoW) : nm \in {"ref_assign", "ref_assign_move"},
@@ -168,7 +168,9 @@ Result(o) ==   \* new value of slot o.s
     [] o.op \in {"ctor_view", "decay", "assign_view", "assign_rview"} -> Src(o)
     \* a pair of iterators carries no index base for the leading dimension
     [] o.op = "ctor_range" -> ZeroLead(Src(o))
-    [] o.op = "assign_range" -> IF arr[o.t].shape = arr[o.s].shape
+    \* (assign_range_ptr: the range is a pair of raw POINTERS into a buffer of ANOTHER arithmetic type holding the same values:
+    \*  the elements are CONVERTED, whatever the width of the source type)
+    [] o.op \in {"assign_range", "assign_range_ptr"} -> IF arr[o.t].shape = arr[o.s].shape
                                 THEN Arr(arr[o.s].shape, arr[o.s].first, arr[o.t].val)   \* element-wise, keeps its extents
                                 ELSE ZeroLead(arr[o.t])
     \* nested initializer lists are zero-based
@@ -226,8 +228,9 @@ OpPre(o) ==
   /\ (o.op \in {"ctor_il", "assign_il"} => (DimD >= 1 /\ DimD <= 3 /\ NE(arr[o.t]) > 0))
   \* assign(first,last) / array(first,last) take the range of sub-arrays: needs D >= 1
   /\ (o.op \in {"ctor_range", "assign_range"} => DimD >= 1)
+  /\ (o.op = "assign_range_ptr" => DimD = 1)
   \* assign(first,last) with as many items as the array has rows assigns row by row: rows must match
-  /\ (o.op = "assign_range" => (arr[o.t].shape[1] # arr[o.s].shape[1] \/ arr[o.t].shape = arr[o.s].shape))
+  /\ (o.op \in {"assign_range", "assign_range_ptr"} => (arr[o.t].shape[1] # arr[o.s].shape[1] \/ arr[o.t].shape = arr[o.s].shape))
 
 AStep(o) ==
   /\ OpPre(o)
